@@ -17,6 +17,7 @@ class ModuleInfo:
         self.classes = {}       # name -> ast.ClassDef
         self.assigns = {}       # module-level name -> ast expr (last simple assignment)
         self.imports = {}       # local name -> ('module', dotted) | ('from', dotted, name)
+        self.star_imports = []   # modules imported with `from m import *`, in source order
         self.dropped = {'docstrings': 0, 'decorators': []}
         self._index(self.tree.body, '')
 
@@ -45,6 +46,9 @@ class ModuleInfo:
                     self.imports[(a.asname or a.name).split('.')[0] if not a.asname else a.asname] = ('module', a.name)
             elif isinstance(node, ast.ImportFrom) and not prefix:
                 for a in node.names:
+                    if a.name == '*':
+                        self.star_imports.append(node.module or '')
+                        continue
                     self.imports[a.asname or a.name] = ('from', node.module or '', a.name)
             elif isinstance(node, (ast.If, ast.Try)) and not prefix:
                 # module-level conditional definitions (e.g. try: import c ext): index all branches
